@@ -4,6 +4,7 @@ import (
 	"bytes"
 	"fmt"
 	"math/rand"
+	"strings"
 	"unicode/utf8"
 
 	vocab "github.com/go-ap/activitypub"
@@ -13,7 +14,7 @@ import (
 
 // C06: natural-language text survives both codecs byte for byte.
 
-var textProps = []string{"name", "summary", "content", "preferredUsername", "source.content"}
+var textProps = []string{"name", "summary", "content", "preferredUsername", "source.content", "source.content-only"}
 var textForms = []string{"single-untagged", "single-tagged", "map-entry"}
 var textCodecs = []string{"json-pkg", "json-method", "gob-pkg", "gob-method"}
 
@@ -93,6 +94,8 @@ func buildTextValue(prop, form, s string, r *rand.Rand) (vocab.Item, func(any) (
 		o.Content = nlv
 	case "source.content":
 		o.Source = vocab.Source{Content: nlv, MediaType: "text/markdown"}
+	case "source.content-only":
+		o.Source = vocab.Source{Content: nlv} // a source without a media type
 	}
 	get := func(x any) (vocab.NaturalLanguageValues, bool) {
 		p, ok := x.(*vocab.Object)
@@ -197,7 +200,7 @@ func jsonTextSide(b []byte, prop, form string, want vocab.NaturalLanguageValues,
 	}
 	obj := root
 	term := prop
-	if prop == "source.content" {
+	if strings.HasPrefix(prop, "source.content") {
 		obj = root.Get("source")
 		term = "content"
 	}
@@ -221,7 +224,7 @@ func init() {
 	per := nProp * nForm * nCodec
 	Register(&Prop{
 		ID: "C06",
-		Rule: "cases: every text class (HTML, quotes, backslashes, newlines, control characters, astral code points, escape look-alikes, JSON-looking text, 1- and 2-byte texts, JSON fragments) x 5 text properties x {single untagged, single tagged, entry of a 2-3 language map} x {JSON package pair, JSON method pair, gob package pair, gob method pair}, exhaustively; " +
+		Rule: "cases: every text class (HTML, quotes, backslashes, newlines, control characters, astral code points, escape look-alikes, JSON-looking text, 1- and 2-byte texts, JSON fragments) x the text-bearing properties (name, summary, content, preferredUsername, source content with and without a media type) x {single untagged, single tagged, entry of a 2-3 language map} x {JSON package pair, JSON method pair, gob package pair, gob method pair}, exhaustively; " +
 			"then seeded random valid-UTF-8 strings (length 1-64) over an alphabet biased to \\ \" / n t u digits braces brackets control bytes and multi-byte runes; oracle is bytes.Equal on the text and equality of the tags; distinct = (codec, property, form, text); non-trivial = the text is not plain ASCII letters",
 		Layers: func(tier string) []Layer {
 			return []Layer{
